@@ -172,7 +172,7 @@ func solveAll(obls []*Obligation, timeout time.Duration, workers int, dir string
 			again = append(again, o)
 		}
 	}
-	if len(again) == 0 || len(again) > 8 {
+	if len(again) == 0 || len(again) > 16 {
 		return
 	}
 	sem := make(chan struct{}, 2)
